@@ -192,6 +192,19 @@ def setup_worker():
     runrt._mods()
 
 
+def history_key(case):
+    """second run in one process: the first test of two independent layers
+    fails, under every option vector"""
+    if case[0] == 2 and case[1] == 'indep' and case[2] == [1, 1] and case[3] == ['t', 0, 'fail']:
+        return case[4]
+    if case[0] == 2 and case[1] == 'chain' and case[2] == [2, 1] and case[3] == ['t', 1, 'error'] and case[4] == 'x':
+        return 'chain'
+    return None
+
+
+HISTORY_MAX = 12
+
+
 def run_case(case):
     if case[0] == 'xj':
         return {'evals': 1, 'nontrivial': 1, 'violations': run_xj_case(case[1]), 'outcome': 'xj', 'nogate': True}
